@@ -1148,6 +1148,10 @@ func (fx *FuncCtx) runGhost(st *State, anchor string, env *SpecEnv, pos token.Po
 		if !fx.ghostInScope(env, gb) {
 			continue // a local named by the block does not exist on this path (the block is anchored on a state where it does)
 		}
+		if fx.ghostRan == nil {
+			fx.ghostRan = map[string]bool{}
+		}
+		fx.ghostRan[gb.At+"|"+gb.Src] = true
 		env.cur = st.heap
 		env.atlock = st.atlock
 		cond := "true"
@@ -1569,6 +1573,10 @@ func (fx *FuncCtx) ghostInScope(env *SpecEnv, gb GhostBlock) (ok bool) {
 		if r := recover(); r != nil {
 			if se, isSpec := r.(specErr); isSpec && strings.Contains(se.msg, "unknown identifier") {
 				ok = false
+				if fx.ghostSkipped == nil {
+					fx.ghostSkipped = map[string]string{}
+				}
+				fx.ghostSkipped[gb.At+"|"+gb.Src] = se.msg
 				return
 			}
 			panic(r)
